@@ -59,13 +59,17 @@ def take_view(world) -> View:
     c = world.conn
     v = View()
     # a bystander workflow (application 'verif-decoy': stored, never started) may share the database
-    rows = c.execute("SELECT id,status,is_canceled,context,start_time,end_time FROM pipeline_executions "
+    rows = c.execute("SELECT id,status,is_canceled,context,start_time,end_time,paused FROM pipeline_executions "
                      "WHERE application != 'verif-decoy'").fetchall()
     if len(rows) != 1:
         raise RuntimeError("harness: expected exactly one workflow")
     w = rows[0]
     v.exec_id = w["id"]
     v.wf = {"status": w["status"], "canceled": int(w["is_canceled"] or 0), "ctx": json.loads(w["context"] or "{}")}
+    if w["paused"]:
+        # hidden state read by the pause / resume handlers: part of the state identity (wall-clock values dropped)
+        pd = json.loads(w["paused"])
+        v.wf["paused"] = {"open": pd.get("resume_time") is None, "by": pd.get("paused_by")}
     labels = {w["id"]: "W"}
     srows = c.execute(
         "SELECT id,ref_id,name,status,context,outputs,start_time,end_time,parent_stage_id,synthetic_stage_owner,"
